@@ -150,7 +150,12 @@ def build_controlled():
         rc, so, se = run([os.path.join(BIN, "nvinstr"), "-time", os.path.join(REPO, "handler.go"), outp], timeout=120)
         if rc != 0:
             return False, "nvinstr -time handler.go failed:\n%s%s" % (so, se)
-        mapping[os.path.join(REPO, "handler.go")] = outp
+        # the head handler's message lock becomes a scheduling point (only HandleWrite is rewritten)
+        outp2 = os.path.join(d, "handler2.go")
+        rc, so, se = run([os.path.join(BIN, "nvinstr"), outp, outp2, "HandleWrite"], timeout=120)
+        if rc != 0:
+            return False, "nvinstr handler.go (HandleWrite) failed:\n%s%s" % (so, se)
+        mapping[os.path.join(REPO, "handler.go")] = outp2
         ov = overlay_json(mapping)
         rc, so, se = run(["go", "build", "-overlay", ov, "-o", os.path.join(BIN, "nvhc"), "./cmd/nvhc"], cwd=HARNESS, timeout=600)
         if rc != 0:
